@@ -27,7 +27,7 @@ def run_case(case):
                     sc.do_create()      # new, still untracked files (written by an agent or a person) take part in the splits too
                 else:
                     sc.do_edit()
-            kind = rng.choice(["files", "hunks", "hunks", "paths", "all", "reworded"])
+            kind = rng.choice(["files", "hunks", "hunks", "paths", "all", "reworded", "deleted"])
             before = sc.head()
             if kind == "files":
                 sc.op_partial_commit()
@@ -37,6 +37,8 @@ def run_case(case):
                 sc.op_commit_paths()
             elif kind == "reworded":
                 sc.op_commit_index_then_reworded()
+            elif kind == "deleted":
+                sc.op_commit_index_then_deleted()
             else:
                 sc.commit_all("all%d" % ci)
             c = sc.head()
